@@ -97,6 +97,9 @@ pub enum PatList {
     /// patterns (the 128-pattern limit of the packed builder, ...) must not
     /// silently drop the late ones
     ManyThenOdd { base: Box<PatList>, n: u8, odd: Vec<Vec<u8>> },
+    /// patterns that start with a multi-byte UTF-8 character (few distinct
+    /// lead bytes) followed by an ASCII tail
+    Utf8Starts { items: Vec<(u8, Vec<u8>)> },
     /// n nested patterns p, pp, ppp, ... (or all prefixes of a long word):
     /// states that carry hundreds of matches
     DeepNested { unit: Vec<u8>, n: u16, reverse: bool },
@@ -233,6 +236,10 @@ fn shaped_list() -> BoxedStrategy<PatList> {
             .prop_map(|(rares, items)| PatList::RareBytes { rares, items }),
         4 => vec(vec(any::<u8>(), 2..=8), 3..=16).prop_map(PatList::Packedish),
         3 => (vec(vec(any::<u8>(), 2..=6), 14..=50), vec((any::<u16>(), any::<u16>()), 1..=12))
+            .prop_map(|(raws, dups)| PatList::MidPacked { raws, dups }),
+        2 => vec((any::<u8>(), vec(any::<u8>(), 0..=5)), 1..=6).prop_map(|items| PatList::Utf8Starts { items }),
+        // between the packed searcher's internal thresholds (64 / 128 patterns)
+        2 => (vec(vec(any::<u8>(), 2..=5), 60..=130), vec((any::<u16>(), any::<u16>()), 0..=4))
             .prop_map(|(raws, dups)| PatList::MidPacked { raws, dups }),
         2 => (vec(any::<u8>(), 70..=140), vec((any::<u16>(), any::<bool>()), 1..=4), vec(vec(any::<u8>(), 2..=6), 0..=4), any::<u8>())
             .prop_map(|(base, cuts, extra, rotate)| PatList::LongNested { base, cuts, extra, rotate }),
@@ -484,7 +491,28 @@ pub fn realize_patterns(list: &PatList, alpha: &[u8]) -> Vec<Vec<u8>> {
                 let pos = idx(*at, out.len() + 1);
                 out.insert(pos, src);
             }
+            // larger lists: the last pattern contains the first one as an
+            // infix (an early pattern id occurring strictly inside a late one)
+            if out.len() > 40 {
+                let mut p = vec![a[(raws.len() * 7) % a.len()]];
+                p.extend_from_slice(&out[0]);
+                p.push(a[(raws.len() * 3) % a.len()]);
+                p.push(a[(raws.len() * 5) % a.len()]);
+                let last = out.len() - 1;
+                out[last] = p;
+            }
             out
+        }
+        PatList::Utf8Starts { items } => {
+            const LEADS: [&str; 8] = ["é", "è", "ü", "ñ", "€", "😀", "ß", "é"];
+            items
+                .iter()
+                .map(|(l, tail)| {
+                    let mut p = LEADS[(*l as usize * LEADS.len()) >> 8].as_bytes().to_vec();
+                    p.extend(tail.iter().map(|&x| pick(b"norme tasuil", x)));
+                    p
+                })
+                .collect()
         }
         PatList::ManyThenOdd { base, n, odd } => {
             let seedlist = realize_patterns(base, alpha);
@@ -926,6 +954,7 @@ pub fn search_case(o: SearchOpts) -> BoxedStrategy<Case> {
                 PatList::LongNested { .. } => "longnested",
                 PatList::ManyThenOdd { .. } => "manythenodd",
                 PatList::DeepNested { .. } => "deepnested",
+                PatList::Utf8Starts { .. } => "utf8starts",
             };
             let sub = if is_big { format!("{}+big-haystack", sub) } else { sub.to_string() };
             Case {
